@@ -34,6 +34,7 @@ fn main() {
             "C05" | "C11" => props::w2props::replay(&v),
             "C18" => props::c18::replay(&v),
             "C20" => props::c20::replay(&v),
+            "C19" => props::c19::replay(&v),
             "C01" | "C02" | "C06" | "C13" => props::w3props::replay(&v),
             _ => eprintln!("no replay for {prop}"),
         }
@@ -67,6 +68,7 @@ fn main() {
         "C11" => props::w2props::run_c11(tier),
         "C18" => props::c18::run(tier),
         "C20" => props::c20::run(tier),
+        "C19" => props::c19::run(tier),
         "C01" => props::w3props::run_ring(props::w3props::Which::C01, tier),
         "C02" => props::w3props::run_ring(props::w3props::Which::C02, tier),
         _ => {
